@@ -882,7 +882,7 @@ C15_Step(c, c2, g, ln) ==
              << <<~live \/ ln.t - x2.last <= 1024 * k2.ka, "C15.pingreq_overdue", <<a, ln.t - x2.last, k2.ka>> >>,
                 <<~live \/ ~overdueOpen, "C15.not_aborted_after_unanswered_ping", <<a, x2.open, ln.t>> >>,
                 <<~kaAbort \/ unanswered, "C15.aborted_although_answered", <<a, x.open, ln.t>> >>,
-                <<~(k.st = "connected" /\ k.ka = 0 /\ k.cd # 0) \/ pings(a) = <<>>, "C15.pingreq_with_keepalive_off", <<a>> >>,
+                <<~((k.st = "connected" /\ k.ka = 0 /\ k.cd # 0) \/ (k2.st = "connected" /\ k2.ka = 0)) \/ pings(a) = <<>>, "C15.pingreq_with_keepalive_off", <<a>> >>,
                 <<~(k.tp = "lost") \/ pings(a) = <<>>, "C15.pingreq_after_loss", <<a>> >>,
                 <<~onlyResp \/ (~Raised(ln) /\ ~HasFx(ln, "close") /\ ~HasFx(ln, "write")), "C15.pingresp_had_effect", <<a>> >> >>,
             hit |-> (IF live THEN 1 ELSE 0) + Len(pings(a)) + (IF kaAbort THEN 1 ELSE 0)]
